@@ -171,6 +171,7 @@ def run(ctx):
     order = 2 if quick else 3
     space = detspace.Space(3, 3, rng.randrange(1 << 30), canonical=True)
     E, psi = space.rspt("mp", order)
+    detspace.certify(ctx, "C04", [("mp", space.seed)], order)
     for variant in variants:
         X = isr_explicit.ISR(space, psi, E, variant, order, n_classes=2)
         ok = True
